@@ -254,7 +254,8 @@ def map_events(args) -> list:
                         continue
                     ev = {"op": "sod", "win": wevs, "day": dd, "cal": cal.id, "res_cal": cal.id, "res_day": dd}
                     try:
-                        zdt = z.at_start_of_day(date)
+                        # two equivalent routes: the zone's method and the date's
+                        zdt = z.at_start_of_day(date) if rnd.random() < 0.5 else date.at_start_of_day_in_zone(z)
                         ev["res"] = t3i(zdt.to_instant())
                         ev["res_cal"] = zdt.calendar.id
                         ev["res_day"] = zdt.date._days_since_epoch
